@@ -398,7 +398,7 @@ func (s *settledEv) Edge(st uint8, from *ssa.BasicBlock, succ int) uint8 {
 	}
 	return st
 }
-func (s *settledEv) Holds(st uint8) bool { return st&bPEND == 0 }
+func (s *settledEv) Holds(st uint8) bool { return st&(bPEND|bLOST) == 0 }
 
 // failEv: the error edge of a matching call was taken (the dual of okEv).
 type failEv struct{ *okEv }
